@@ -14,6 +14,10 @@ use crate::rng::{end_after_hang, guarded, Outcome, hex_bytes, Rng};
 // ---------------------------------------------------------------- Datadog
 // the request is recorded BEFORE the response is written: the reporter returns as soon as it has
 // the response, and the harness reads the capture right after that
+/// how the fake agent answers the next request: 0 = 200, 1 = no answer (the connection is closed
+/// once the request has been read), 2 = 500
+static AGENT_MODE: std::sync::atomic::AtomicU8 = std::sync::atomic::AtomicU8::new(0);
+
 fn read_request(stream: &mut std::net::TcpStream, cap: &Mutex<Vec<(String, Vec<u8>)>>) -> Option<()> {
     stream.set_read_timeout(Some(std::time::Duration::from_secs(5))).ok()?;
     let mut buf: Vec<u8> = vec![];
@@ -42,7 +46,15 @@ fn read_request(stream: &mut std::net::TcpStream, cap: &Mutex<Vec<(String, Vec<u
             if buf.len() >= he + cl {
                 let body = buf[he..he + cl].to_vec();
                 cap.lock().unwrap().push((head, body));
-                let _ = stream.write_all(b"HTTP/1.1 200 OK\r\nContent-Length: 2\r\nConnection: close\r\n\r\n{}");
+                match AGENT_MODE.load(std::sync::atomic::Ordering::SeqCst) {
+                    1 => {}
+                    2 => {
+                        let _ = stream.write_all(b"HTTP/1.1 500 Internal Server Error\r\nContent-Length: 2\r\nConnection: close\r\n\r\n{}");
+                    }
+                    _ => {
+                        let _ = stream.write_all(b"HTTP/1.1 200 OK\r\nContent-Length: 2\r\nConnection: close\r\n\r\n{}");
+                    }
+                }
                 return Some(());
             }
         }
@@ -64,10 +76,22 @@ pub fn datadog(seed: u64, n: usize, out: &mut dyn std::io::Write) {
     });
     let mut r = Rng::new(seed);
     let mut nrec = 0;
+    // one reporter serves up to four consecutive batches (a reporter lives as long as the
+    // process); the agent sometimes fails to answer or answers 500 -- whatever happened to
+    // one request, the next one must be complete and well-formed again
+    let holder: Arc<Mutex<Option<fastrace_datadog::DatadogReporter>>> = Arc::new(Mutex::new(None));
+    let mut modes = [0u64; 3];
     for k in 0..n {
-        let service = match k % 4 { 0 => "", 1 => "svc-é値", _ => "service" };
-        let resource = match k % 3 { 0 => "res", 1 => "", _ => "GET /a/値" };
-        let ty = match k % 2 { 0 => "web", _ => "" };
+        let sess = k / 4;
+        let service = match sess % 4 { 0 => "", 1 => "svc-é値", _ => "service" };
+        let resource = match sess % 3 { 0 => "res", 1 => "", _ => "GET /a/値" };
+        let ty = match sess % 2 { 0 => "web", _ => "" };
+        if k % 4 == 0 {
+            *holder.lock().unwrap_or_else(|e| e.into_inner()) = None;
+        }
+        let mode: u8 = match r.below(6) { 0 => 1, 1 => 2, _ => 0 };
+        modes[mode as usize] += 1;
+        AGENT_MODE.store(mode, std::sync::atomic::Ordering::SeqCst);
         let nb = match k % 6 { 0 => 0, 1 => 1, 2 => 15 + r.below(3), 3 => 300, _ => r.below(12) };
         let batch: Vec<SpanRecord> = (0..nb).map(|_| rand_record_realistic(&mut r, k % 5 == 4)).collect();
         nrec += batch.len();
@@ -77,9 +101,12 @@ pub fn datadog(seed: u64, n: usize, out: &mut dyn std::io::Write) {
             line.push_str(&fmt_record(rec));
         }
         captured.lock().unwrap().clear();
+        let h2 = holder.clone();
         let res = guarded(move || {
-            let mut rep = fastrace_datadog::DatadogReporter::new(addr, service, resource, ty);
+            let mut slot = h2.lock().unwrap_or_else(|e| e.into_inner());
+            let mut rep = slot.take().unwrap_or_else(|| fastrace_datadog::DatadogReporter::new(addr, service, resource, ty));
             rep.report(batch);
+            *slot = Some(rep);
         }, 30);
         if matches!(res, Outcome::Hung) {
             let _ = writeln!(out, "{} => hang", line);
@@ -99,17 +126,26 @@ pub fn datadog(seed: u64, n: usize, out: &mut dyn std::io::Write) {
         };
         let _ = writeln!(out, "{} => {}", line, rhs);
     }
+    let _ = writeln!(out, "#stat dd-agent-ok {}", modes[0]);
+    let _ = writeln!(out, "#stat dd-agent-no-answer {}", modes[1]);
+    let _ = writeln!(out, "#stat dd-agent-500 {}", modes[2]);
     let _ = writeln!(out, "#stat dd-batches {}", n);
     let _ = writeln!(out, "#stat dd-records {}", nrec);
 }
 
 // ---------------------------------------------------------------- OpenTelemetry
+static EXPORT_FAILS: std::sync::atomic::AtomicBool = std::sync::atomic::AtomicBool::new(false);
 #[derive(Debug, Clone)]
 struct CapExporter(Arc<Mutex<Vec<Vec<opentelemetry_sdk::trace::SpanData>>>>);
 impl opentelemetry_sdk::trace::SpanExporter for CapExporter {
     fn export(&self, batch: Vec<opentelemetry_sdk::trace::SpanData>) -> impl std::future::Future<Output = opentelemetry_sdk::error::OTelSdkResult> + Send {
         self.0.lock().unwrap().push(batch);
-        std::future::ready(Ok(()))
+        // the collector behind the exporter is sometimes unavailable
+        if EXPORT_FAILS.load(std::sync::atomic::Ordering::SeqCst) {
+            std::future::ready(Err(opentelemetry_sdk::error::OTelSdkError::InternalFailure("collector unavailable".to_string())))
+        } else {
+            std::future::ready(Ok(()))
+        }
     }
 }
 
@@ -128,6 +164,8 @@ fn fmt_kvs(kvs: &[opentelemetry::KeyValue]) -> String {
 pub fn otel(seed: u64, n: usize, out: &mut dyn std::io::Write) {
     let mut r = Rng::new(seed);
     let mut nrec = 0;
+    let cap: Arc<Mutex<Vec<Vec<opentelemetry_sdk::trace::SpanData>>>> = Arc::new(Mutex::new(vec![]));
+    let holder: Arc<Mutex<Option<fastrace_opentelemetry::OpenTelemetryReporter>>> = Arc::new(Mutex::new(None));
     for k in 0..n {
         // sizes around the OTel SDK's customary export batch of 512 included: every record of a
         // large report must still be exported exactly once
@@ -139,16 +177,24 @@ pub fn otel(seed: u64, n: usize, out: &mut dyn std::io::Write) {
             line.push(' ');
             line.push_str(&fmt_record(rec));
         }
-        let cap = Arc::new(Mutex::new(vec![]));
+        // one reporter (and exporter) serves three consecutive reports; one export in six fails
+        if k % 3 == 0 {
+            *holder.lock().unwrap_or_else(|e| e.into_inner()) = None;
+        }
+        cap.lock().unwrap().clear();
+        EXPORT_FAILS.store(r.below(6) == 0, std::sync::atomic::Ordering::SeqCst);
         let cap2 = cap.clone();
+        let h2 = holder.clone();
         let res = guarded(move || {
-            let mut rep = fastrace_opentelemetry::OpenTelemetryReporter::new(
+            let mut slot = h2.lock().unwrap_or_else(|e| e.into_inner());
+            let mut rep = slot.take().unwrap_or_else(|| fastrace_opentelemetry::OpenTelemetryReporter::new(
                 CapExporter(cap2),
                 opentelemetry::trace::SpanKind::Server,
                 Cow::Owned(opentelemetry_sdk::Resource::builder().build()),
                 opentelemetry::InstrumentationScope::builder("verif").build(),
-            );
+            ));
             rep.report(batch);
+            *slot = Some(rep);
         }, 30);
         if matches!(res, Outcome::Hung) {
             let _ = writeln!(out, "{} => hang", line);
